@@ -70,6 +70,39 @@ def oracle(chk, inp, m, cls, schema, ci):
     return b, m2
 
 
+def copied_values(chk, b):
+    """a message value is a value however it was obtained: here as the ORIGINAL of a copy whose copy then went its
+    own way (other oneof members assigned, fields overwritten). The original must still round-trip to what it was."""
+    import copy
+    rng = chk.rng
+    for v in b.values[:4]:
+        ci = v[1]
+        md = b.schema[ci]
+        try:
+            m = bpgen.to_py(v, b.classes)
+            want = bytes(m)
+        except Exception:
+            continue
+        how = rng.choice([copy.copy, copy.deepcopy])
+        try:
+            c = how(m)
+        except Exception as e:
+            chk.fail("copy-raises", {"schema": b.describe(), "value": bpgen.term(v)}, repr(e))
+            continue
+        for f in md.fields:
+            if f.repeated or f.ty == "map" or (f.group is None and rng.random() < 0.5):
+                continue
+            try:
+                setattr(c, f.name, bpgen.to_py(bpgen.gen_field(rng, b.schema, f, 1), b.classes, f.ty))
+            except Exception:
+                pass
+        inp = {"schema": b.describe(), "value": bpgen.term(v), "history": "original of a %s whose copy was then reassigned" % how.__name__}
+        chk.count("original_of_diverged_copy")
+        enc, _ = oracle(chk, inp, m, b.classes[ci], b.schema, ci)
+        if isinstance(enc, bytes) and enc != want:
+            chk.fail("value-changed-by-its-copy", inp, "%s -> %s" % (want.hex(), enc.hex()))
+
+
 def one_batch(chk, drv, b):
     if drv:
         assert drv.ask1(b.schema_line()) == "ok"
@@ -83,6 +116,7 @@ def one_batch(chk, drv, b):
                  {"value": bpgen.term(v), "bytes": enc.hex() if isinstance(enc, bytes) else None})
         if enc is not None and m2 is not None:
             staged.append((v, ci, enc, m2))
+    copied_values(chk, b)
     if drv and staged:
         lines = []
         for v, ci, enc, m2 in staged:
@@ -182,6 +216,17 @@ def replay(chk, rp):
         classes = bpgen.build_bp(schema)
         v = parse_term(inp["value"].split())[0]
         c = type(chk)(chk.pid, "quick", 0)
+        if "history" in inp:
+            class B:
+                pass
+            b = B()
+            b.schema, b.classes, b.values = schema, classes, [v]
+            b.describe = lambda: inp["schema"]
+            for _ in range(20):      # the reassignment of the copy is random: a few draws
+                copied_values(c, b)
+                if c.oracle_failures:
+                    break
+            return bool(c.oracle_failures)
         oracle(c, inp, bpgen.to_py(v, classes), classes[v[1]], schema, v[1])
         return bool(c.oracle_failures)
     return True
